@@ -3,7 +3,7 @@
 # demo fails with it and passes without it) in a scratch worktree and keep it under seeded/<PROP>-<n>/
 SD=$1; N=$2; PROP=$3
 WT=/tmp/confirm_$$
-OUT=/verif/seeded/$PROP-$N
+OUT=/verif/seeded/$PROP-${4:-$N}
 git -C /repo worktree add -q --detach $WT HEAD || exit 3
 cd $WT
 mkdir -p _seed && cp $SD/demo$N.py _seed/
@@ -18,7 +18,7 @@ case "$tests" in *"214 passed"*) ok=1;; *) ok=0;; esac
 if [ $rc_clean -eq 0 ] && [ $rc_mut -ne 0 ] && [ $ok -eq 1 ]; then
   mkdir -p $OUT; cp $SD/patch$N.diff $OUT/patch.diff; cp $SD/demo$N.py $OUT/demo.py
   [ -f $SD/notes.md ] && cp $SD/notes.md $OUT/agent_notes.md
-  /venv/bin/python - "$OUT" "$PROP" "$N" "$tests" "$(tail -3 /tmp/c_$$.mut)" <<'PY'
+  /venv/bin/python - "$OUT" "$PROP" "${4:-$N}" "$tests" "$(tail -3 /tmp/c_$$.mut)" <<'PY'
 import sys, json, subprocess
 out, prop, n, tests, demo = sys.argv[1:6]
 meta = dict(property=prop, seed_index=int(n), base_commit=subprocess.check_output(["git","-C","/repo","rev-parse","--short","HEAD"],text=True).strip(),
